@@ -106,43 +106,97 @@ var (
 	c46SockLocal  = &net.TCPAddr{IP: net.IPv4(10, 1, 2, 3), Port: 8443}
 )
 
-func c46Run(c *c46Case) c46Obs {
-	mem := &c46Conn{data: c.stream, pieces: c.Pieces, tail: c.Tail, local: c46SockLocal, remote: c46SockRemote}
-	obs := c46Obs{sockRemote: c46SockRemote, sockLocal: c46SockLocal}
-	obs.panicked = ev.Try(func() {
-		// the way bfe_server.BfeListener.Accept wraps an accepted connection
-		pc := bfe_proxy.NewConn(mem, 60*time.Second, c.Limit)
-		if c.AddrFirst {
-			obs.remote = pc.RemoteAddr()
-			obs.virt = pc.VirtualAddr()
+// c46Live is one open connection under test: opened the way BfeListener.Accept
+// does, read step by step, and finally closed by its owner (bfe_server always
+// closes a connection, also after bfe_proxy closed it itself on a bad header).
+type c46Live struct {
+	c    *c46Case
+	mem  *c46Conn
+	pc   *bfe_proxy.Conn
+	obs  c46Obs
+	out  []byte
+	i    int
+	zero int
+	done bool
+}
+
+func c46Open(c *c46Case) *c46Live {
+	l := &c46Live{c: c}
+	l.mem = &c46Conn{data: c.stream, pieces: c.Pieces, tail: c.Tail, local: c46SockLocal, remote: c46SockRemote}
+	l.obs = c46Obs{sockRemote: c46SockRemote, sockLocal: c46SockLocal}
+	l.try(func() { l.pc = bfe_proxy.NewConn(l.mem, 60*time.Second, c.Limit) })
+	return l
+}
+
+func (l *c46Live) try(f func()) {
+	if l.obs.panicked != nil {
+		l.done = true
+		return
+	}
+	if p := ev.Try(f); p != nil {
+		l.obs.panicked = p
+		l.done = true
+	}
+}
+
+// addrs asks for the addresses (bfe_server does so right after Accept).
+func (l *c46Live) addrs() {
+	l.try(func() {
+		l.obs.remote = l.pc.RemoteAddr()
+		l.obs.virt = l.pc.VirtualAddr()
+	})
+}
+
+// step performs one Read; false when the connection has ended.
+func (l *c46Live) step() bool {
+	if l.done {
+		return false
+	}
+	l.try(func() {
+		sz := l.c.ReadSizes[l.i%len(l.c.ReadSizes)]
+		l.i++
+		buf := make([]byte, sz)
+		n, err := l.pc.Read(buf)
+		l.out = append(l.out, buf[:n]...)
+		if err != nil {
+			l.obs.err = err
+			l.done = true
+			return
 		}
-		var out []byte
-		zero := 0
-		for i := 0; ; i++ {
-			sz := c.ReadSizes[i%len(c.ReadSizes)]
-			buf := make([]byte, sz)
-			n, err := pc.Read(buf)
-			out = append(out, buf[:n]...)
-			if err != nil {
-				obs.err = err
-				break
+		if n == 0 {
+			l.zero++
+			if l.zero > 1000 {
+				l.obs.err = fmt.Errorf("harness: 1000 empty reads")
+				l.done = true
 			}
-			if n == 0 {
-				zero++
-				if zero > 1000 {
-					obs.err = fmt.Errorf("harness: 1000 empty reads")
-					break
-				}
-			}
-		}
-		obs.data = out
-		if !c.AddrFirst {
-			obs.remote = pc.RemoteAddr()
-			obs.virt = pc.VirtualAddr()
 		}
 	})
-	obs.closed = mem.closed
-	return obs
+	return !l.done
+}
+
+// finish: late address query and the owner's Close.
+func (l *c46Live) finish() c46Obs {
+	l.obs.data = l.out
+	if !l.c.AddrFirst {
+		l.addrs()
+	}
+	l.obs.closed = l.mem.closed
+	if l.pc != nil {
+		if p := ev.Try(func() { l.pc.Close() }); p != nil && l.obs.panicked == nil {
+			l.obs.panicked = p
+		}
+	}
+	return l.obs
+}
+
+func c46Run(c *c46Case) c46Obs {
+	l := c46Open(c)
+	if c.AddrFirst {
+		l.addrs()
+	}
+	for l.step() {
+	}
+	return l.finish()
 }
 
 func c46AddrEq(a net.Addr, want netip.AddrPort) bool {
@@ -208,7 +262,8 @@ func c46EvalReject(o *c46Obs) (kind, msg string) {
 	return "", ""
 }
 
-func c46Check(tb ev.TB, rec *ev.Rec, c *c46Case) {
+// c46Record classifies the case and records it as evidence.
+func c46Record(rec *ev.Rec, c *c46Case, extra ...string) c46Verdict {
 	eff := c.Limit
 	if eff <= 0 {
 		eff = 2048
@@ -247,38 +302,41 @@ func c46Check(tb ev.TB, rec *ev.Rec, c *c46Case) {
 	if c.AddrFirst {
 		classes = append(classes, "addr-first")
 	}
+	classes = append(classes, extra...)
 	rec.Case(fmt.Sprintf("%s|%v|%d|%d|%v|%v", c.StreamHex, c.Pieces, c.Tail, c.Limit, c.AddrFirst, c.ReadSizes), nt, classes...)
 	rec.Sample(map[string]any{"gen": c.Gen, "class": v.Class, "mode": c46ModeName[v.Mode], "stream_len": len(c.stream),
 		"hdr_len": v.HdrLen, "head_hex": hex.EncodeToString(c.stream[:min(len(c.stream), 48)]), "pieces": c.Pieces, "limit": c.Limit, "mut": c.Mut})
 
-	o := c46Run(c)
-	keyClass := v.Class
+	return v
+}
+
+// c46Eval compares one observation with the expectation; kind == "" means ok.
+func c46Eval(rec *ev.Rec, c *c46Case, v *c46Verdict, o *c46Obs) (keyClass, kind, msg string) {
+	keyClass = v.Class
 	if v.Mapped && v.Mode == c46Advertised {
 		keyClass += "-v4mapped"
 	}
 	if o.panicked != nil {
-		rec.Fail(tb, keyClass+".panic", c, "panic in bfe_proxy: %v", o.panicked)
-		return
+		return keyClass, "panic", fmt.Sprintf("panic in bfe_proxy: %v", o.panicked)
 	}
-	var kind, msg string
 	switch v.Mode {
 	case c46NoHeader:
-		kind, msg = c46EvalPass(&o, c.stream, false, &v)
+		kind, msg = c46EvalPass(o, c.stream, false, v)
 	case c46Advertised:
-		kind, msg = c46EvalPass(&o, c.stream[v.HdrLen:], true, &v)
+		kind, msg = c46EvalPass(o, c.stream[v.HdrLen:], true, v)
 	case c46Socket:
-		kind, msg = c46EvalPass(&o, c.stream[v.HdrLen:], false, &v)
+		kind, msg = c46EvalPass(o, c.stream[v.HdrLen:], false, v)
 	case c46Reject:
-		kind, msg = c46EvalReject(&o)
+		kind, msg = c46EvalReject(o)
 	case c46SocketOrReject, c46AdvSocketOrReject:
-		kind, msg = c46EvalPass(&o, c.stream[v.HdrLen:], false, &v)
+		kind, msg = c46EvalPass(o, c.stream[v.HdrLen:], false, v)
 		if kind != "" {
-			if k2, _ := c46EvalReject(&o); k2 == "" {
+			if k2, _ := c46EvalReject(o); k2 == "" {
 				kind = ""
 			}
 		}
 		if kind != "" && v.Mode == c46AdvSocketOrReject {
-			if k3, _ := c46EvalPass(&o, c.stream[v.HdrLen:], true, &v); k3 == "" {
+			if k3, _ := c46EvalPass(o, c.stream[v.HdrLen:], true, v); k3 == "" {
 				kind = ""
 			}
 		}
@@ -292,14 +350,101 @@ func c46Check(tb ev.TB, rec *ev.Rec, c *c46Case) {
 			kind, msg = "invented-bytes", "delivered data is not a contiguous part of the stream"
 		}
 	}
-	if kind != "" {
-		if surveyHit("C46", keyClass+"."+kind, msg+" head="+strconv.Quote(string(c.stream[:min(len(c.stream), 60)]))) {
+	return keyClass, kind, msg
+}
+
+// c46Report turns a discrepancy into a (known) finding.
+func c46Report(tb ev.TB, rec *ev.Rec, c *c46Case, v *c46Verdict, key, msg string, witness any) {
+	if surveyHit("C46", key, msg+" head="+strconv.Quote(string(c.stream[:min(len(c.stream), 60)]))) {
+		return
+	}
+	if !rec.Fail(tb, key, witness, "%s (%s, expectation %s): %s; head=%q",
+		key, c.Gen, c46ModeName[v.Mode], msg, string(c.stream[:min(len(c.stream), 60)])) {
+		rec.Excluded("known-finding:" + key)
+	}
+}
+
+func c46Check(tb ev.TB, rec *ev.Rec, c *c46Case) {
+	v := c46Record(rec, c)
+	o := c46Run(c)
+	if keyClass, kind, msg := c46Eval(rec, c, &v, &o); kind != "" {
+		c46Report(tb, rec, c, &v, keyClass+"."+kind, msg, c)
+	}
+}
+
+// c46Scenario: connections are not independent objects for the process that
+// serves them -- `History` connections are served and closed one after the
+// other, then the `Group` connections are open AT THE SAME TIME (all accepted,
+// then read in the interleaving `Schedule`), as on a busy listener. Every
+// connection must still report its own addresses and deliver its own bytes.
+type c46Scenario struct {
+	History  []*c46Case `json:"history"`
+	Group    []*c46Case `json:"group"`
+	Schedule []int      `json:"schedule"` // index of the connection that does the next Read (cyclic)
+}
+
+func c46CheckScenario(tb ev.TB, rec *ev.Rec, sc *c46Scenario) {
+	for _, h := range sc.History {
+		v := c46Record(rec, h, "scenario-history")
+		o := c46Run(h)
+		if keyClass, kind, msg := c46Eval(rec, h, &v, &o); kind != "" {
+			c46Report(tb, rec, h, &v, keyClass+"."+kind, msg, sc)
 			return
 		}
-		if !rec.Fail(tb, keyClass+"."+kind, c, "%s (%s, expectation %s): %s; head=%q",
-			keyClass, c.Gen, c46ModeName[v.Mode], msg, string(c.stream[:min(len(c.stream), 60)])) {
-			rec.Excluded("known-finding:" + keyClass + "." + kind)
+	}
+	tag := fmt.Sprintf("concurrent-%d", len(sc.Group))
+	vs := make([]c46Verdict, len(sc.Group))
+	lives := make([]*c46Live, len(sc.Group))
+	for i, c := range sc.Group {
+		vs[i] = c46Record(rec, c, "scenario-"+tag)
+	}
+	for i, c := range sc.Group { // all accepted before any is served
+		lives[i] = c46Open(c)
+	}
+	for i, c := range sc.Group {
+		if c.AddrFirst {
+			lives[i].addrs()
 		}
+	}
+	open := len(lives)
+	for k := 0; open > 0; k++ {
+		i := k % len(lives)
+		if len(sc.Schedule) > 0 {
+			i = sc.Schedule[k%len(sc.Schedule)] % len(lives)
+		}
+		if lives[i].done {
+			// the scheduled one has ended: serve the next open one instead
+			for j := range lives {
+				if !lives[j].done {
+					i = j
+					break
+				}
+			}
+		}
+		if !lives[i].step() {
+			open--
+		}
+	}
+	obs := make([]c46Obs, len(lives))
+	for i := range lives {
+		obs[i] = lives[i].finish()
+	}
+	for i, c := range sc.Group {
+		keyClass, kind, msg := c46Eval(rec, c, &vs[i], &obs[i])
+		if kind == "" {
+			continue
+		}
+		// the same connection served alone: if that is fine, the discrepancy is
+		// caused by the other connections (state shared between connections)
+		alone := c46Run(c)
+		if _, k2, _ := c46Eval(rec, c, &vs[i], &alone); k2 == "" {
+			c46Report(tb, rec, c, &vs[i], "cross-connection."+kind,
+				fmt.Sprintf("connection %d of %d simultaneously open ones (after %d earlier connections) misbehaves, alone it is served correctly: %s",
+					i+1, len(sc.Group), len(sc.History), msg), sc)
+			return
+		}
+		c46Report(tb, rec, c, &vs[i], keyClass+"."+kind, msg, sc)
+		return
 	}
 }
 
@@ -666,14 +811,20 @@ func c46Mutate(rt *rapid.T, stream []byte, hdrLen int) ([]byte, string) {
 	}
 }
 
-func c46DrawCase(rt *rapid.T) *c46Case {
+func c46DrawCase(rt *rapid.T) *c46Case { return c46DrawCaseOf(rt, -1) }
+
+// c46DrawCaseOf draws a case of the given generator kind (-1: any).
+func c46DrawCaseOf(rt *rapid.T, forceKind int) *c46Case {
 	c := &c46Case{}
 	c.Limit = c46Limits[rapid.IntRange(0, len(c46Limits)-1).Draw(rt, "limit")]
 	eff := int(c.Limit)
 	if eff <= 0 {
 		eff = 2048
 	}
-	kind := rapid.IntRange(0, 11).Draw(rt, "kind")
+	kind := forceKind
+	if kind < 0 {
+		kind = rapid.IntRange(0, 11).Draw(rt, "kind")
+	}
 	var hdr []byte
 	noPayload := false
 	minPayload := 0
@@ -842,11 +993,88 @@ func c46Sweep(t *testing.T, rec *ev.Rec) {
 	}
 }
 
+// c46DrawScenario: 0..2 earlier connections (biased towards ones whose header
+// is refused, so that bfe_proxy closes them itself before the owner does), then
+// 2..3 connections that are open at the same time.
+func c46DrawScenario(rt *rapid.T) *c46Scenario {
+	sc := &c46Scenario{}
+	nh := rapid.IntRange(0, 2).Draw(rt, "history-len")
+	for i := 0; i < nh; i++ {
+		k := -1
+		if rapid.Bool().Draw(rt, "history-bad") {
+			k = 9 + rapid.IntRange(0, 1).Draw(rt, "history-bad-kind") // malformed v1 / v2
+		}
+		sc.History = append(sc.History, c46DrawCaseOf(rt, k))
+	}
+	ng := rapid.IntRange(2, 3).Draw(rt, "group-size")
+	for i := 0; i < ng; i++ {
+		k := -1
+		if rapid.IntRange(0, 2).Draw(rt, "group-common") != 0 {
+			k = 11 // the headers real balancers send
+		}
+		sc.Group = append(sc.Group, c46DrawCaseOf(rt, k))
+	}
+	sc.Schedule = rapid.SliceOfN(rapid.IntRange(0, ng-1), 0, 6).Draw(rt, "schedule")
+	return sc
+}
+
+// c46ScenarioSweep: deterministic scenarios -- each kind of earlier connection
+// followed by 2 and 3 simultaneously open connections with distinct headers
+// and payloads.
+func c46ScenarioSweep(t *testing.T, rec *ev.Rec) {
+	mk := func(gen string, stream []byte, hdrLen int, addrFirst bool) *c46Case {
+		c := &c46Case{Gen: "sweep:" + gen, HdrLenGen: hdrLen, AddrFirst: addrFirst, ReadSizes: []int{7, 64}, Tail: 1 << 20}
+		c.stream = stream
+		c.StreamHex = hex.EncodeToString(stream)
+		return c
+	}
+	histories := map[string][]byte{
+		"0-none":         nil,
+		"1-bad-v1-addr":  []byte("PROXY TCP4 not-an-address 10.0.0.2 1 2\r\nxxxx"),
+		"2-bad-v2-trunc": c46WriteV2(0x21, 0x11, c46Addr4Block([4]byte{1, 1, 1, 1}, [4]byte{2, 2, 2, 2}, 1, 2), nil)[:20],
+		"3-bad-v2-cmd":   append(c46WriteV2(0x2F, 0x11, c46Addr4Block([4]byte{1, 1, 1, 1}, [4]byte{2, 2, 2, 2}, 1, 2), nil), "data"...),
+		"4-no-header":    []byte("GET / HTTP/1.0\r\n\r\n"),
+		"5-v1-ok":        append(c46WriteV1("TCP4", "9.9.9.9", "8.8.8.8", 9, 8), "hello"...),
+	}
+	hnames := []string{"0-none", "1-bad-v1-addr", "2-bad-v2-trunc", "3-bad-v2-cmd", "4-no-header", "5-v1-ok"}
+	var six [16]byte
+	six[0], six[15] = 0x20, 7
+	for _, hn := range hnames {
+		for _, n := range []int{2, 3} {
+			for _, addrFirst := range []bool{true, false} {
+				sc := &c46Scenario{}
+				if h := histories[hn]; h != nil {
+					sc.History = []*c46Case{mk("history:"+hn, h, len(h), addrFirst)}
+				}
+				for i := 0; i < n; i++ {
+					var h []byte
+					switch i {
+					case 0:
+						h = c46WriteV1("TCP4", "10.1.1.1", "10.1.1.2", 1111, 80)
+					case 1:
+						h = c46WriteV2(0x21, 0x11, c46Addr4Block([4]byte{10, 2, 2, 1}, [4]byte{10, 2, 2, 2}, 2222, 443), c46TLV(4, make([]byte, 9)))
+					default:
+						h = c46WriteV2(0x21, 0x21, c46Addr6Block(six, six, 3333, 8443), nil)
+					}
+					payload := bytes.Repeat([]byte{'A' + byte(i)}, 16+300*i)
+					sc.Group = append(sc.Group, mk(fmt.Sprintf("group%d-of-%d", i, n), append(h, payload...), len(h), addrFirst))
+				}
+				c46CheckScenario(t, rec, sc)
+			}
+		}
+	}
+}
+
 func TestC46(t *testing.T) {
 	rec := ev.New("C46", "streams = header from an independent spec writer (v1 TCP4/TCP6/UNKNOWN short+long, v2 PROXY/LOCAL x UNSPEC/TCP4/TCP6/UDP/UNIX + TLVs up to min(limit,1500) B), hand-made malformed headers, byte mutations of valid headers, header-less streams; + payload 0..9 KB; delivered in generated pieces; expectation from a strict reference classifier. non-trivial: v2 with TLVs, LOCAL, UNKNOWN, or a delivery boundary inside the header; distinct by (stream bytes, pieces, limit, call order, read sizes)")
 	c46SelfCheck(t)
 	c46Sweep(t, rec)
+	c46ScenarioSweep(t, rec)
 	rapid.Check(t, func(rt *rapid.T) {
+		if rapid.IntRange(0, 4).Draw(rt, "scenario") == 0 {
+			c46CheckScenario(rt, rec, c46DrawScenario(rt))
+			return
+		}
 		c46Check(rt, rec, c46DrawCase(rt))
 	})
 }
